@@ -421,6 +421,20 @@ msg     .stringz "in: "
 """
 
 
+ECHO3 = """        jsr f
+        call g
+        getc
+        out
+        in
+        halt
+f       add r1 r1 #1
+        ret
+g       add r1 r1 #2
+        rets
+msg     .stringz "in: "
+"""
+
+
 def cli_shared_stream(ctx, violations, n=24):
     """The real binary (hooks off) with the debugger's script ON STANDARD INPUT, followed on the same stream by the
     program's console input: the debugger must consume exactly its own lines (up to and including `quit`) and leave the
@@ -445,6 +459,22 @@ def cli_shared_stream(ctx, violations, n=24):
         for gone in ("x3000", "x3001", "x3002"):
             ahead = [a for a in ("x3001", "x3002") if a != gone]
             designed.append(["break add " + a for a in perm] + ["break remove " + gone] + ["continue"] * len(ahead) + ["break list", "quit"])
+    # designed, with -f stack: leaving a JSR/RET and a CALL/RETS subroutine with `step out`, `step` over each call, before the
+    # program's first input instruction - a pause that does not happen lets the program read the script
+    f3 = os.path.join(d, "echo3.asm")
+    open(f3, "w").write(ECHO3)
+    designed3 = [["step into 1", "step out", "registers", "quit"], ["step", "step into 1", "step out", "quit"], ["step", "step", "quit"],
+                 ["step into 1", "step out", "step into 1", "step out", "print r1", "quit"], ["break add g", "continue", "step out", "quit"],
+                 ["step into 2", "step into 1", "step", "quit"], ["step out", "quit"]]
+    for cmds in designed3:
+        script = "\n".join(cmds) + "\n"
+        inp = "7Z"
+        src = [ord(c) for c in ECHO3]; stream = list((script + inp).encode("utf-8"))
+        nums = [1, 3000, len(src)] + src + [0, 0, len(stream)] + stream
+        cases.append("DBGS " + " ".join(f"{v:x}" for v in nums))
+        jobs.append(lambda sc=script, i=inp: (clicommon.run_cli(exe, ["debug", f3, "--minimal", "-f", "stack"], d, stdin=(sc + i).encode(), timeout=20),
+                                              clicommon.run_cli(exe, ["run", f3, "--minimal", "-f", "stack"], d, stdin=i.encode(), timeout=20)))
+        metas.append((script, inp, True, False))
     for k in range(-len(designed), n):
         cmds = list(designed[k + len(designed)]) if k < 0 else [rnd.choice(insp) for _ in range(rnd.randrange(0, 5))]
         safe = True
